@@ -10,6 +10,51 @@ fn ethcall(from: u8, to: Option<String>, data: &[u8]) -> Value {
     json!({"from": addr_s(pk_addr(from)), "to": to, "data": hx(data)})
 }
 
+alloy::sol! {
+    function getTxDetails(bytes32 txid) returns (uint256 block_height, bytes32[] vin_txids, uint256[] vin_vouts, bytes[] vin_scriptPubKeys, uint256[] vin_values, bytes[] vout_scriptPubKeys, uint256[] vout_values);
+}
+
+const OV_TOP: [u8; 32] = [0x11; 32];
+const OV_PREV: [u8; 32] = [0x22; 32];
+
+/// eth_callMany of getTxDetails(OV_TOP) with overrides in which the spent output of OV_PREV is worth `value`
+fn txdetails_read(value: u64) -> Value {
+    use alloy::sol_types::SolCall;
+    let top = super::c09::btc_tx_v(OV_PREV, &[0], false, 1, 777);
+    let prev = super::c09::btc_tx_v(OV_PREV, &[0], true, 1, value);
+    let d = getTxDetailsCall { txid: OV_TOP.into() }.abi_encode();
+    let mut hexes = serde_json::Map::new();
+    hexes.insert(hx(&OV_TOP), json!(hx(&top)));
+    hexes.insert(hx(&OV_PREV), json!(hx(&prev)));
+    json!([[{"from": addr_s(pk_addr(0)), "to": "0x00000000000000000000000000000000000000fd", "data": hx(&d)}], null, {"opReturnTxIds": [], "bitcoinTxHexes": hexes, "expectVinValue": value}])
+}
+
+/// A read that carries Bitcoin-transaction overrides answers from *its own* overrides: the value of the spent
+/// output it reports is the one in this request's override set, whatever earlier requests carried.
+fn oracle(_sc: &Scenario) -> Option<BoundaryOracle<'static>> {
+    Some(Box::new(move |_inst: &mut crate::inst::Inst, _world: &World, outs: &[StepOut]| {
+        use alloy::sol_types::SolCall;
+        let mut bad = Vec::new();
+        let Some(o) = outs.last() else { return bad };
+        let Step::Read { method, params, .. } = &o.step else { return bad };
+        let Some(want) = params.get(2).and_then(|p| p.get("expectVinValue")).and_then(|v| v.as_u64()) else { return bad };
+        if o.call.method == "<skip>" {
+            return bad;
+        }
+        let got = o.outcome.result().and_then(|r| r.get(0)).and_then(|x| x.as_str()).and_then(|h| hex::decode(h.trim_start_matches("0x")).ok()).and_then(|b| getTxDetailsCall::abi_decode_returns(&b).ok());
+        match got {
+            Some(r) if r.vin_values.len() == 1 && r.vin_values[0] == alloy::primitives::U256::from(want) => bad.push(("note:override-reads-answering-from-their-own-overrides".into(), String::new())),
+            Some(r) => bad.push(("override-read-answers-from-another-request".into(), format!("{} whose override set says the spent output is worth {} answered vin_values = {:?}", method, want, r.vin_values))),
+            None => bad.push(("override-read-answers-from-another-request".into(), format!("{} with a complete override set (spent output worth {}) answered {}", method, want, canon(&o.outcome.to_value())))),
+        }
+        bad
+    }))
+}
+
+pub fn oracle_factory() -> crate::hist::OracleFactory {
+    oracle
+}
+
 pub fn read_menu() -> Vec<(String, Step)> {
     let s = Tgt::s().resolve().unwrap();
     let rd = |m: &str, p: Value, boundary_only: bool| Step::Read { method: m.to_string(), params: p, boundary_only };
@@ -56,6 +101,8 @@ pub fn read_menu() -> Vec<(String, Step)> {
         ("callMany:blockhash,set@100".into(), rd("eth_callMany", json!([[bh, set], "0x64", null]), true)),
         ("estimate:blockhash@100".into(), rd("eth_estimateGas", json!([bh, "0x64"]), true)),
         ("estimateMany:blockhash@300".into(), rd("eth_estimateGasMany", json!([[bh, get0], "0x12c", null]), true)),
+        ("callMany:txdetails(prev=1000)".into(), rd("eth_callMany", txdetails_read(1000), true)),
+        ("callMany:txdetails(prev=2000)".into(), rd("eth_callMany", txdetails_read(2000), true)),
         ("balance".into(), rd("brc20_balance", json!([pkscript(1), "ordi"]), true)),
         ("getLogs".into(), rd("eth_getLogs", json!([{}]), false)),
         ("getBlock".into(), rd("eth_getBlockByNumber", json!(["latest", true]), false)),
